@@ -79,6 +79,19 @@ void FeatureChecker::visitVariable(variable_t& var)
         supported_methods.symbolic = false;
 }
 
+void FeatureChecker::visitFunction(function_t& fun)
+{
+    // an update may assign through a function: look at every expression of the body
+    if (fun.body)
+        fun.body->accept(this);
+}
+
+void FeatureChecker::visitExpression(expression_t expr)
+{
+    if (!expr.empty())
+        visitAssignment(expr);
+}
+
 void FeatureChecker::visitEdge(edge_t& edge)
 {
     visitAssignment(edge.assign);
